@@ -206,6 +206,7 @@ func (ex *Exec) verifyCase(fn *ssa.Function, key string, ctr *Contract, cs *Case
 	st.old = entry
 	fr.entry = entry
 	fr.entryMaxObj = ex.objCount
+	fr.checkSitesExist(st)
 	fr.runFrom(st, fn.Blocks[0], nil, 0, func(st *State, results []Val) {
 		fr.checkPost(st, results)
 	})
